@@ -1,4 +1,5 @@
 """C01 - Search returns exactly the posting list of every stored keyword (engine E1)."""
+import copy
 from mc import core, det, domains, sse
 
 PROPERTY = 'C01'
@@ -22,7 +23,7 @@ def describe(tier):
         'bounds': 'N<=%d exhaustive over partitions; boundary lengths up to %d' % (n, MAXLEN[tier]),
         'assumptions': ['one DRBG value assignment per shape and seed (data values are outside the enumerated alphabet)',
                         'supported grid: PRF output width = next key width; SSE-1 array size a power of two and N < s; Pi2Lev |DB(w)| < B*B\'*b\''],
-        'must_be_nonzero': ['empty-list-database-refused', 'empty-list-database-accepted', 'rebuild-same-key', 'pi2lev-small', 'pi2lev-medium', 'pi2lev-large', 'N=1', 'single-list-2^k', 'dp17-L>1', 'piptr-index-2-bytes'],
+        'must_be_nonzero': ['ctor-styles', 'empty-list-database-refused', 'empty-list-database-accepted', 'rebuild-same-key', 'pi2lev-small', 'pi2lev-medium', 'pi2lev-large', 'N=1', 'single-list-2^k', 'dp17-L>1', 'piptr-index-2-bytes'],
     }
 
 
@@ -78,6 +79,7 @@ def units(tier, seed):
             for k in range(0, n, CHUNK):
                 us.append(('%s/%s/%d' % (name, label, k), {'scheme': name, 'label': label, 'cfg': cfg, 'lo': k, 'hi': k + CHUNK}))
         us.append(('sweep/%s' % name, {'sweep': name}))
+        us.append(('ctor/%s' % name, {'ctor': name}))
     return us
 
 
@@ -196,8 +198,57 @@ def run_sweep(r, seed, name, tier):
                     r.count('sweep-cases')
 
 
+def run_ctor_styles(r, seed, name):
+    """the ways a caller can hand over the configuration and the arguments: positional / keyword, dict / OrderedDict / a dict
+    subclass - the same scheme every time (a configuration that is NOT the default one, so that a dropped argument shows)"""
+    import collections
+    L = sse.loader(name)
+    pts = [x for x in sse.grid(name, 'quick') if x[0] in ('base', 'id0', 'B0', 'quad0', 'l0', 's0')][:3]
+
+    class MyDict(dict):
+        pass
+    for label, cfg in pts:
+        for style, mk in (('keyword', lambda c: L.SSEScheme(config=c)), ('ordered-dict', lambda c: L.SSEScheme(collections.OrderedDict(c))),
+                          ('dict-subclass', lambda c: L.SSEScheme(MyDict(c))), ('keyword-ordered-dict', lambda c: L.SSEScheme(config=collections.OrderedDict(c)))):
+            for profile in ([3, 1], [2, 2, 1]):
+                if not sse.valid_profile(name, cfg, profile):
+                    continue
+                case = {'scheme': name, 'label': label, 'cfg': cfg, 'profile': profile, 'ctor_style': style}
+                core.note_case(case)
+                db, cfg2, g = sse.build_db(seed, name, label, cfg, profile, 6, 'disjoint')
+                det.seed_case(seed, PROPERTY, 'ctor', name, label, style, tuple(profile))
+                r['evaluations'] += 1
+                r['states'] += 1
+                r['nontrivial'] += 1
+                try:
+                    scheme = mk(copy.deepcopy(cfg2))
+                    key = scheme.KeyGen()
+                    edb = scheme.EDBSetup(key, db)
+                    r['transitions'] += 2
+                except Exception as e:
+                    r.v(PROPERTY, name, 'setup-raises', 'ctor-style/%s:%s:%s' % (style, core.exc_site(e), type(e).__name__), case, 'scheme built and index set up', core.exc_text(e))
+                    continue
+                r.count('ctor-styles')
+                for w in db:
+                    try:
+                        tk = scheme.TokenGen(key, w)
+                        got = scheme.Search(edb, tk).get_result_list()
+                        r['transitions'] += 2
+                    except Exception as e:
+                        r.v(PROPERTY, name, 'search-raises', 'ctor-style/%s:%s:%s' % (style, core.exc_site(e), type(e).__name__), dict(case, keyword=w), db[w], core.exc_text(e))
+                        continue
+                    if not sse.result_ok(name, got, db[w]):
+                        r.v(PROPERTY, name, 'result-differs', 'ctor-style/%s/%s' % (style, sse.classify_diff(name, got, db[w])), dict(case, keyword=w), db[w], got)
+                    else:
+                        r.outcome('ok/ctor-style')
+
+
 def run_unit(p, tier, seed):
     r = core.Result()
+    if 'ctor' in p:
+        run_ctor_styles(r, seed, p['ctor'])
+        det.restore()
+        return r
     if 'sweep' in p:
         run_sweep(r, seed, p['sweep'], tier)
         det.restore()
@@ -214,6 +265,9 @@ def run_unit(p, tier, seed):
 
 
 def replay(case, seed):
+    if case.get('ctor_style'):
+        full = run_unit({'ctor': case['scheme']}, 'quick', seed)
+        return [v for v in full['violations'] if core.dec(v['case']).get('ctor_style') == case['ctor_style'] and core.dec(v['case']).get('label') == case['label']]
     if case.get('sweep'):
         full = run_unit({'sweep': case['scheme']}, 'quick', seed)
         return [v for v in full['violations'] if core.dec(v['case']).get('label') == case['label']]
